@@ -9,6 +9,7 @@ import (
 	"os"
 	"sort"
 	"strconv"
+	"strings"
 	"sync"
 	"sync/atomic"
 	"time"
@@ -194,6 +195,9 @@ func runScenario(sc Scenario, dir string) ([]verif.Event, *RunResult) {
 	}
 	if sc.Mode == "bytes" || sc.Mode == "core" {
 		r.tornPublishStep()
+	}
+	if sc.Mode == "contend" || sc.Mode == "core" {
+		r.clsHoldStep()
 	}
 	if sc.Vanish {
 		r.vanishStep()
@@ -957,4 +961,87 @@ func (r *Run) tornPublishStep() {
 		cn.close()
 	}
 	time.Sleep(50 * time.Millisecond)
+}
+
+// clsHoldStep: a consumer that holds unanswered messages sends CLS while another consumer of the channel is ready.  CLS
+// means "send me nothing more": what the closing consumer holds stays its own until it answers or its timeout expires
+// (C02).
+func (r *Run) clsHoldStep() {
+	t := r.sc.Topics[0]
+	r.httpAdmin("/channel/create?topic=" + t + "&channel=clsch")
+	dialC := func(name string, rdy string) *Conn {
+		cn, err := dial(r.nd.TCP, r.newConnName(name))
+		if err != nil {
+			return nil
+		}
+		if _, err := cn.identify(map[string]interface{}{"output_buffer_timeout": 25}); err != nil {
+			cn.close()
+			return nil
+		}
+		if err := cn.sub(t, "clsch"); err != nil {
+			cn.close()
+			return nil
+		}
+		cn.cmd("RDY", "", rdy)
+		return cn
+	}
+	a := dialC("clsa", "2")
+	if a == nil {
+		r.inconclusive("cls step: connect")
+		return
+	}
+	defer a.close()
+	var keys []string
+	for i := 0; i < 2; i++ {
+		key := fmt.Sprintf("p96-%05d", i)
+		body := []byte(key + "|held over CLS")
+		rec := r.record(key, t, body, 0, "HTTP")
+		hlib.Emit("HPub", "key", key, "via", "HTTP", "t", t, "defer", 0, "now", time.Now().UnixNano())
+		if st, _, err := r.nd.post("/pub?topic="+t, body); err == nil && st == 200 {
+			r.markAcked([]*pubRec{rec})
+		}
+		keys = append(keys, key)
+	}
+	held := map[string]string{} // id -> key
+	deadline := time.Now().Add(5 * time.Second)
+	for len(held) < 2 && time.Now().Before(deadline) {
+		f, ok := a.next(50 * time.Millisecond)
+		if ok && f.Type == 2 && strings.HasPrefix(keyOf(f.Body), "p96-") {
+			held[f.ID] = keyOf(f.Body)
+		}
+	}
+	if len(held) < 2 {
+		for id := range held {
+			a.cmd("FIN", id, "")
+		}
+		return // other consumers of the scenario do not exist on this channel; nothing to judge
+	}
+	b := dialC("clsb", "2")
+	if b == nil {
+		r.inconclusive("cls step: connect")
+		return
+	}
+	defer b.close()
+	if _, err := b.barrier(10 * time.Second); err != nil {
+		r.inconclusive("cls step barrier: %v", err)
+		return
+	}
+	a.cmd("CLS", "", "")
+	if _, err := a.barrier(10 * time.Second); err != nil {
+		r.inconclusive("cls step barrier: %v", err)
+		return
+	}
+	// what the daemon did with the held messages in the meantime is judged from its own events (NsqdAbs!AKCmd: a command
+	// moves only the message it names; AIFPop: only the holder or its expired timeout takes a message out of flight)
+	end := time.Now().Add(r.sc.MsgTimeout / 2)
+	for time.Now().Before(end) {
+		f, ok := b.next(20 * time.Millisecond)
+		if ok && f.Type == 2 {
+			b.cmd("FIN", f.ID, "")
+		}
+	}
+	for id := range held {
+		a.cmd("FIN", id, "")
+	}
+	a.barrier(10 * time.Second)
 }
